@@ -41,8 +41,10 @@ deriving Repr, DecidableEq
 
 /-- result of `s.raftLog.GetLog(i, &l)`: `none` = outside the log (never asked for by
 the scan), `some none` = `ErrLogNotFound` (compacted), `some (some t)` = entry type -/
-def Node.typeAt (n : Node) (i : Nat) : Option (Option EType) :=
-  if i = 0 then none else n.log[i - 1]?
+def typeAtL (l : List (Option EType)) (i : Nat) : Option (Option EType) :=
+  if i = 0 then none else l[i - 1]?
+
+def Node.typeAt (n : Node) (i : Nat) : Option (Option EType) := typeAtL n.log i
 
 /-- `Store.fsmWaitIndex idx`:
 ```go
@@ -104,20 +106,22 @@ def Ev.enabled (n : Node) : Ev → Bool
   | .restore i => decide (n.handed ≤ i)
   | .compact k => decide (k ≤ n.handed)
 
-def applyEv (n : Node) (e : Ev) : Node :=
-  if !e.enabled n then n else
-  match e with
+/-- `runFSM` takes the next committed entry: only a command entry reaches `fsmApply` -/
+def applyFsm (n : Node) : Node :=
+  match n.typeAt (n.handed + 1) with
+  | some (some .command) => { n with handed := n.handed + 1, fsmIdx := max n.fsmIdx (n.handed + 1) }
+  | _ => { n with handed := n.handed + 1 }
+
+def applyRaw (n : Node) : Ev → Node
   | .append t => { n with log := n.log ++ [some t] }
   | .trunc k => { n with log := n.log.take k }
   | .commit c => { n with commit := c }
-  | .fsm =>
-    let i := n.handed + 1
-    match n.typeAt i with
-    | some (some .command) => { n with handed := i, fsmIdx := max n.fsmIdx i }
-    | _ => { n with handed := i }
+  | .fsm => applyFsm n
   | .restore i =>
     { n with log := padTo n.log i, commit := max n.commit i, handed := i, fsmIdx := max n.fsmIdx i }
   | .compact k => { n with log := compactLog n.log k }
+
+def applyEv (n : Node) (e : Ev) : Node := if e.enabled n then applyRaw n e else n
 
 def run (n : Node) (es : List Ev) : Node := es.foldl applyEv n
 
@@ -144,8 +148,14 @@ deriving Repr
 
 /-- the step order of the function; tied to the source by `Gen.ReadPath.waitLinSteps` -/
 def stepNames : List String :=
-  ["strongReadTerm.Load", "raft.State", "Ready", "raft.CommitIndex", "VerifyLeader",
-   "raft.CurrentTerm", "fsmWaitIndex", "fsmTarget.Subscribe"]
+  ["s.strongReadTerm.Load", "s.raft.State", "s.Ready", "s.raft.CommitIndex", "s.VerifyLeader",
+   "s.raft.CurrentTerm", "s.fsmWaitIndex", "s.fsmTarget.Subscribe"]
+
+/-- what each exit of the function returns, in source order; tied to the source by
+`retsOf Gen.ReadPath.waitLin` (the constructors of `LinOut` in the same order) -/
+def retNames : List String :=
+  ["ErrStrongReadNeeded", "ErrNotLeader", "ErrNotReady", "err", "ErrStaleRead", "nil",
+   "fmt.Errorf(\"index %d: %w\", readIndex, ErrWaitForFSMTimeout)"]
 
 def waitLin (e : LinEnv) : LinOut :=
   if e.readTerm ≠ e.strongReadTerm then .strongNeeded
